@@ -8,6 +8,7 @@ package vrt
 import (
 	"fmt"
 	"runtime/debug"
+	"sort"
 	"strings"
 )
 
@@ -484,4 +485,22 @@ func MakeReady(t *Thread) {
 	if cur != nil && t != nil {
 		cur.ready(t)
 	}
+}
+
+// MapKeys returns the keys of m in an order owned by the explorer: sorted, with an explored
+// choice of which key comes first (enough for loops that take the first element; Go's own
+// order is random, which a model checker must not leave to chance).
+func MapKeys[K comparable, V any](m map[K]V) []K {
+	keys := make([]K, 0, len(m))
+	for k := range m {
+		keys = append(keys, k)
+	}
+	sort.Slice(keys, func(i, j int) bool { return fmt.Sprint(keys[i]) < fmt.Sprint(keys[j]) })
+	if len(keys) > 1 {
+		i := Choose(len(keys), "map-order")
+		k := keys[i]
+		copy(keys[1:i+1], keys[:i])
+		keys[0] = k
+	}
+	return keys
 }
